@@ -1271,6 +1271,9 @@ func (s *BgpServer) handleRouteRefresh(peer *peer, e *fsmMsg) {
 	}
 	rfList := []bgp.Family{rf}
 	s.getBestFromLocalCallback(peer, rfList, true, true, func(paths []*table.Path, filtered []*table.Path) {
+		// the Adj-RIB-Out is re-evaluated under the current export policy:
+		// what it no longer contains has to be withdrawn, as in softResetOut.
+		paths = append(withdrawalsOfFiltered(peer, filtered), paths...)
 		if len(paths) > 0 {
 			peer.updateRoutes(paths...)
 			sendfsmOutgoingMsg(peer, paths)
@@ -2924,6 +2927,25 @@ func (s *BgpServer) softResetIn(addr string, family bgp.Family) error {
 	return err
 }
 
+// withdrawalsOfFiltered returns the withdrawals a full re-advertisement owes the
+// peer: the paths the export filters reject now but that were advertised before.
+func withdrawalsOfFiltered(peer *peer, filtered []*table.Path) []*table.Path {
+	withdrawals := make([]*table.Path, 0, len(filtered))
+	for _, path := range filtered {
+		if path == nil || path.IsEOR() {
+			continue
+		}
+		if !peer.IsFamilyEnabled(path.GetFamily()) {
+			continue
+		}
+		if !peer.hasPathAlreadyBeenSent(path) {
+			continue
+		}
+		withdrawals = append(withdrawals, path.Clone(true))
+	}
+	return withdrawals
+}
+
 func (s *BgpServer) softResetOut(addr string, family bgp.Family, deferral bool) error {
 	peers, err := s.addrToPeers(addr)
 	if err != nil {
@@ -2969,20 +2991,7 @@ func (s *BgpServer) softResetOut(addr string, family bgp.Family, deferral bool) 
 		s.getBestFromLocalCallback(peer, families, true, true, func(paths []*table.Path, filtered []*table.Path) {
 			if len(filtered) > 0 && !deferral {
 				// withdraw paths that export policy now rejects
-				withdrawals := make([]*table.Path, 0, len(filtered))
-				for _, path := range filtered {
-					if path == nil || path.IsEOR() {
-						continue
-					}
-					if !peer.IsFamilyEnabled(path.GetFamily()) {
-						continue
-					}
-					if !peer.hasPathAlreadyBeenSent(path) {
-						continue
-					}
-					withdrawals = append(withdrawals, path.Clone(true))
-				}
-				paths = append(withdrawals, paths...)
+				paths = append(withdrawalsOfFiltered(peer, filtered), paths...)
 			}
 			if len(paths) > 0 {
 				if deferral {
